@@ -70,7 +70,8 @@ def gen_scenario(rng, cls=None, regime=None, constraints=False, max_n=60, max_m=
     elif cls == 'BinomialGAM':
         levels = rng.choice([2, 3, 5, 12])
         p = 1 / (1 + np.exp(-2 * sig))
-        y = np.minimum(nprng.binomial(levels, p), levels - 1).astype(float)   # y == levels trips an assert in _initial_estimate (known)
+        y = nprng.binomial(levels, p).astype(float)
+        y[rng.randrange(n)] = float(levels)     # all-successes rows are valid binomial data
     elif cls == 'PoissonGAM':
         y = nprng.poisson(np.exp(1.0 + sig)).astype(float)
     else:
